@@ -434,7 +434,8 @@ class RichGen:
         self.provs = {}
         self.opts = dict(bad_refs=bad_refs, ciphertexts=ciphertexts, providers=providers, nonobject_inputs=nonobject_inputs,
                          faulty=faulty)
-        self.nimports = rng.below(3) if nimports is None else nimports
+        # mostly 0..2 imports; one world in six has 3 or 4 (check mode with three or more merged imports is otherwise unreached)
+        self.nimports = (rng.below(3) if not rng.chance(1, 6) else 3 + rng.below(2)) if nimports is None else nimports
         self.open_keys = []
 
     def scalar(self):
@@ -463,13 +464,21 @@ class RichGen:
         if k == 4 and names:
             p = [("name", r.choice(names))]
             for _ in range(r.below(3)):
-                p.append(r.choice([("name", "val"), ("name", "user"), ("idx", 0), ("idx", 1), ("key", "p"), ("name", "tok")]))
+                p.append(r.choice([("name", "val"), ("name", "user"), ("idx", 0), ("idx", 1), ("key", "p"), ("name", "tok"),
+                                   ("idx", 10), ("idx", 16), ("name", "key037"), ("key", "key074")]))
             return ("sym", p)
         if k == 5 and self.opts["bad_refs"]:
             return ("sym", [("name", r.choice(["nope", "missing"]))] + ([("name", "x")] if r.chance(1, 2) else []))
         if k == 6:
             return ("obj", [(kk, self.value(env, names, depth - 1)) for kk in r.shuffle(["p", "q", "r"])[: 1 + r.below(3)]])
         if k == 7:
+            if r.chance(1, 12):
+                # long arrays (indices >= 10) and wide objects (Go maps with several buckets), read back by index / key
+                n = r.choice([11, 12, 17, 33])
+                return ("arr", [("num", str(i)) if i % 3 else ("str", "e%d" % i) for i in range(n)])
+            if r.chance(1, 12):
+                n = r.choice([9, 17, 33, 70])
+                return ("obj", [("key%03d" % ((i * 37) % 1000), ("num", str(i))) for i in range(n)])
             return ("arr", [self.value(env, names, depth - 1) for _ in range(r.below(3))])
         if k == 8 and names:
             # one to three references in one string: which of them is unknown / secret must not depend on its position
